@@ -29,7 +29,8 @@ LEVEL = "proof"
 RULE = ("labels: random number trees (leaf-only, balanced, degenerate chains, combs, random splits; direct and "
         "indirect nodes and label dictionaries) over random label dictionaries (styles D R r A a, none, prefixes in "
         "PDFDocEncoding and UTF-16BE, St present/absent) and page counts; outlines: random forests incl. long sibling "
-        "chains (>= 1500 in every run) and deep nesting, titles in both encodings, Dest / A / both; names: random name "
+        "chains (>= 1500 in every run) and deep nesting, titles in both encodings, Dest / A / both, plus outlines whose "
+        "First/Next links were rewired into cycles / shared / dangling links (tie and termination only); names: random name "
         "trees (same shapes, Limits tight) with present and absent keys (below, between, above, prefixes/extensions of "
         "keys, str names against the PDF-1.1 Dests dictionary); text: random strings in both encodings incl. surrogate "
         "pairs, every PDFDocEncoding byte; formatters: roman exhaustively 1..3999, alpha 1..N.  A case is non-trivial "
@@ -37,8 +38,9 @@ RULE = ("labels: random number trees (leaf-only, balanced, degenerate chains, co
 TRUSTED_BASE = [
     "tools/translate/gen_c17.py (Python ast -> Lean) for ROMAN_ONES, ROMAN_FIVES, PDFDocEncoding - each translated "
     "table is also run against the Python original (roman exhaustively, all 256 bytes)",
-    "hand models lean/PdfVerif/Model/Labels.lean (NumberTree._parse/values, PageLabels.labels, _format_page_label, "
-    "format_int_roman/alpha, decode_text), Model/Outline.lean (get_outlines.search), Model/NameTree.lean "
+    "hand models lean/PdfVerif/Model/Labels.lean (NumberTree._parse/values incl. settings.STRICT, PageLabels.labels, "
+    "_format_page_label, format_int_roman/alpha, decode_text), Model/Outline.lean (get_outlines.search on unfolded "
+    "entries), Model/OutlineGraph.lean (the same walk on an object graph with the visited set), Model/NameTree.lean "
     "(lookup_name, get_dest) - correspondence-checked on generated catalogs",
     "the harness's PDF writer and its conversion of a generated case into (a) a PDF file and (b) the model's term "
     "(object resolution, dict_value/list_value/str_value glue and the xref layer are exercised, not modelled)",
@@ -50,7 +52,7 @@ ASSUMPTIONS = [
     "St >= 1, every non-root node carries Limits bounding its keys with siblings separated, destinations are non-empty "
     "arrays/dictionaries, roman values < 4000, text strings use defined PDFDocEncoding codes or well-formed UTF-16BE",
     "PDFDocEncoding code 0x16 maps to U+0017 as printed in ISO 32000-1 Table D.2",
-    "settings.STRICT is False (the default)",
+    "settings.STRICT False (default) for everything; label extraction additionally under settings.STRICT = True",
 ]
 STATEMENT_STATUS = {
     "pdfdoc_table_total": "proved (regenerated table has 256 entries)",
@@ -71,6 +73,14 @@ STATEMENT_STATUS = {
     "C17_label_partial": "partial: letter-style values <= 26 (everything else of the full statement)",
     "C17_outline_forest": "proved for every forest and level (mutual induction over the forest)",
     "C17_outline": "proved: get_outlines on the Outlines dictionary of any forest = preorder with levels from 1",
+    "utf16_roundtrip": "proved: decode_text(BOM ++ UTF-16BE encoding of any list of Unicode scalar values) = that list",
+    "alpha_bijective": "proved for every n > 0: the code's letters numeral read in bijective base 26 is n (what the code "
+                       "does instead of Table 159)",
+    "C17_label_strict": "proved: with settings.STRICT = True a conforming tree gives exactly the default-mode labels",
+    "C17_nametree_sorted": "proved: flattening of a conforming name tree is strictly ascending (keys unique)",
+    "C17_outline_terminates": "proved for every finite object graph incl. cycles, shared and dangling links: budget "
+                              "|store|+1 never exhausted, no object visited twice",
+    "C17_outline_graph_total": "proved (get_outlines on a graph always returns)",
     "C17_nametree": "proved for every conforming name tree and every key (found value / KeyError)",
     "C17_dest": "proved: get_dest = specification for strings (name tree) and names (Dests dictionary)",
 }
@@ -416,9 +426,11 @@ def emit_outlines(b: Builder, case) -> None:
     """First/Next/Prev/Last/Parent/Count encoding of the forest (ISO 32000-1 12.3.3)."""
     forest = case["forest"]
     root_ref = Ref(b.alloc())
+    b.outline_ids = [root_ref.n]
 
     def emit_level(items, parent: Ref) -> Tuple[Optional[Any], Optional[Any]]:
         refs = [Ref(b.alloc()) for _ in items]
+        b.outline_ids += [r.n for r in refs]
         for i, it in enumerate(items):
             d: Dict[str, Any] = {"Parent": parent}
             if it.get("t") is not None:
@@ -493,6 +505,17 @@ def impl_labels(case, count: int) -> Tuple[List[str], List[str]]:
     return out, pl
 
 
+def impl_labels_strict(case, count: int) -> Tuple[List[str], List[str]]:
+    """impl_labels with settings.STRICT = True (restored afterwards)."""
+    from pdfminer import settings
+    old = settings.STRICT
+    settings.STRICT = True
+    try:
+        return impl_labels(case, count)
+    finally:
+        settings.STRICT = old
+
+
 def canon_obj(o) -> str:
     from pdfminer.pdftypes import PDFObjRef
     from pdfminer.psparser import PSLiteral
@@ -536,20 +559,79 @@ def expected_dest_canon(d, npages: int) -> str:
     raise ValueError(d[0])
 
 
-def outline_pdf(case) -> bytes:
+def outline_builder(case) -> Builder:
     b = Builder(case.get("npages", 2))
+    b.outline_ids = []
     if not case.get("no_outlines"):
         emit_outlines(b, case)
-    return b.pdf()
+        ids = b.outline_ids
+        # damage: links rewired after the conforming encoding was written (cycles, shared or dangling links)
+        for kind, src, dst in case.get("damage", []):
+            d = b.objs[ids[src % len(ids)]]
+            target = Ref(99999) if dst < 0 else Ref(ids[dst % len(ids)])
+            if kind == "next":
+                d["Next"] = target
+            else:
+                d["First"] = target
+                d["Last"] = target
+    return b
+
+
+def outline_pdf(case) -> bytes:
+    return outline_builder(case).pdf()
+
+
+def canon_w(o) -> str:
+    """canon_obj for objects of the PDF writer (same text as pdfminer's view of them)."""
+    if isinstance(o, Ref):
+        return "R%d" % o.n
+    if isinstance(o, Name):
+        return "/" + o.b.decode("latin-1")
+    if isinstance(o, str):
+        return "/" + o
+    if isinstance(o, HexStr):
+        return "s" + o.b.hex()
+    if isinstance(o, bytes):
+        return "s" + o.hex()
+    if isinstance(o, bool):
+        return "true" if o else "false"
+    if isinstance(o, int):
+        return "i%d" % o
+    if isinstance(o, (list, tuple)):
+        return "[" + " ".join(canon_w(x) for x in o) + "]"
+    raise ValueError(o)
+
+
+def sx_outline_graph(b: Builder, it: "Intern") -> Tuple[int, str]:
+    """The outline dictionaries as an object graph (id, Title, Dest, A.D, SE, First, Last?, Next)."""
+    parts = []
+    for n in b.outline_ids:
+        d = b.objs[n]
+        t = d.get("Title")
+        tb = None if t is None else (t.b if isinstance(t, HexStr) else t)
+        parts.append("(%d %s %s %s %s %s %s %s)" % (
+            n, "-" if tb is None else "s:" + tb.hex(),
+            "-" if "Dest" not in d else str(it.get(canon_w(d["Dest"]))),
+            "-" if "A" not in d else str(it.get(canon_w(d["A"]["D"]))),
+            "1" if "SE" in d else "-",
+            str(d["First"].n) if "First" in d else "-",
+            "+" if "Last" in d else "-",
+            str(d["Next"].n) if "Next" in d else "-"))
+    return b.outline_ids[0], "(G " + " ".join(parts) + ")"
 
 
 def impl_outline(case) -> List[str]:
     from pdfminer.pdfdocument import PDFNoOutlines
     from pdfminer.pdftypes import resolve1
-    doc = open_doc(outline_pdf(case))
+    b = outline_builder(case)
+    doc = open_doc(b.pdf())
     out: List[str] = []
+    cap = len(b.outline_ids) + 2      # every dictionary yields at most one item
     try:
-        for (level, title, dest, a, se) in doc.get_outlines():
+        for (level, title, dest, a, se) in itertools.islice(doc.get_outlines(), cap + 1):
+            if len(out) >= cap:
+                out.append("E:unbounded")
+                break
             a1 = resolve1(a)
             out.append("%d:%s:%s:%s:%s" % (
                 level, cps(title),
@@ -1061,6 +1143,25 @@ def gen_outline_case(rng, wild: bool, special: Optional[str] = None) -> Dict[str
                     {"t": h(b"e%d" % i), "d": ["name", "foo"], "kids": []}]
         case["forest"] = node
         return case
+    if special == "damaged":
+        case["forest"] = gen_forest(rng, rng.choice([2, 4, 8, 15]), 0, tag, False, rng.choice([1, 3, 5]))
+        n = count_items(case["forest"]) + 1       # ids: 0 = Outlines dictionary, 1.. = items in emission order
+        dmg = []
+        for _ in range(rng.choice([1, 1, 2, 3])):
+            kind = rng.choice(["next", "next", "first"])
+            src = rng.randint(1, n - 1)
+            r = rng.random()
+            if r < 0.25:
+                dst = src                          # link to itself
+            elif r < 0.45:
+                dst = 0                            # back to the Outlines dictionary
+            elif r < 0.6:
+                dst = -1                           # dangling reference
+            else:
+                dst = rng.randint(0, n - 1)        # any other dictionary (ancestor, earlier sibling, cousin)
+            dmg.append([kind, src, dst])
+        case["damage"] = dmg
+        return case
     if special == "empty":
         case["forest"] = []
         return case
@@ -1178,6 +1279,15 @@ def shrink_labels(case, fails) -> Dict[str, Any]:
                 c2 = dict(cur, tree=dict(cur["tree"], nums=n2))
                 if fails(c2):
                     cur, nums = c2, n2
+    else:
+        # the shape matters: one leaf per entry under the root, then fewer entries
+        def wide(es):
+            return {"nums": None, "ind": False,
+                    "kids": [{"nums": [[k, dict(v, ind=False, type=False, hexstr=False)]], "kids": None, "ind": False}
+                             for k, v in es]}
+        if fails(dict(cur, tree=wide(flat))):
+            keep = C.ddmin([list(x) for x in flat], lambda sub: fails(dict(cur, tree=wide(sub))), 60)
+            cur = dict(cur, tree=wide(keep))
     # fewer pages
     lo = 1
     while lo < cur["npages"] and not fails(dict(cur, npages=lo)):
@@ -1222,6 +1332,8 @@ def eval_labels(ctx: C.Ctx, batch: Batch, case, wild: bool, shrink: bool = True)
     if case.get("tree") is not None:
         batch.add("spec.labels %d %s" % (count, sx_numtree(case["tree"])), "spec.labels", case,
                   "outside-domain" if exp is None else "|".join(exp), "spec")
+    if case.get("tree") is not None:
+        eval_labels_strict(ctx, batch, case, wild, exp, count)
     if exp is not None and not wild:
         if impl != exp:
             def fails(c):
@@ -1237,6 +1349,38 @@ def eval_labels(ctx: C.Ctx, batch: Batch, case, wild: bool, shrink: bool = True)
             e2 = spec_labels(small, cnt)
             ctx.fail(C.Failure("page label differs from ISO 32000-1 12.4.2 (prefix ++ numeral(style, St + i - start))",
                                small, e2, i2, alpha_only_tags(small, cnt, i2, e2)))
+
+
+def eval_labels_strict(ctx: C.Ctx, batch: Batch, case, wild: bool, exp: Optional[List[str]], count: int) -> None:
+    """settings.STRICT = True: a conforming tree must give the same labels as in the default mode."""
+    flat = flatten_num(case["tree"])
+    if any(ld.get("junk") for _, ld in flat):
+        return      # PDFTypeError from dict_value: type faults are C13's subject
+    impl, pl = impl_labels_strict(case, count)
+    ctx.branch("labels-strict:" + (impl[-1] if impl and impl[-1].startswith("E:") else "ok"))
+    batch.add("labels.strict %d %s" % (count, sx_numtree(case["tree"])), "labels.strict", case, "|".join(impl), "model")
+    if exp is None or wild:
+        return
+    npages = case["npages"]
+    if impl == exp and pl != exp[:npages]:
+        ctx.fail(C.Failure("PDFPage.label is not the label of that page index (settings.STRICT = True)",
+                           case, exp[:npages], pl, {"component": "pagelabel-attach", "mode": "strict"}))
+    if impl != exp:
+        def fails(c):
+            try:
+                cnt = c["npages"] + c.get("extra", 3)
+                e = spec_labels(c, cnt)
+                return e is not None and impl_labels_strict(c, cnt)[0] != e
+            except Exception:  # noqa: BLE001
+                return False
+        small = shrink_labels(case, fails)
+        cnt = small["npages"] + small.get("extra", 3)
+        i2, _ = impl_labels_strict(small, cnt)
+        e2 = spec_labels(small, cnt)
+        tags = alpha_only_tags(small, cnt, i2, e2)
+        tags["mode"] = "strict"
+        ctx.fail(C.Failure("with settings.STRICT = True a conforming page-label tree does not give the labels of "
+                           "ISO 32000-1 12.4.2", dict(small, strict=True), e2, i2, tags))
 
 
 def tree_depth(node) -> int:
@@ -1265,6 +1409,19 @@ def eval_outline(ctx: C.Ctx, batch: Batch, case, wild: bool) -> None:
             out.append("%s:%s:%s:%s:%s" % (lvl, title, "-" if d == "-" else it.get(d), "-" if a == "-" else it.get(a),
                                            "-" if se == "-" else "1"))
         return "|".join(out) if out else "-"
+    damaged = bool(case.get("damage"))
+    small_in = case if n < 200 else {"kind": "outline", "items": n}
+    if not case.get("no_outlines"):
+        # the object-graph model (visited set): also for rewired links (cycles, shared, dangling)
+        root_id, gsx = sx_outline_graph(outline_builder(case), it)
+        batch.add("outline.graph %d %s" % (root_id, gsx), "outline.graph", small_in, internalise(impl), "model")
+    if damaged:
+        ctx.branch("outline:damaged:" + "+".join(sorted({d[0] + ("-dangling" if d[2] < 0 else "") for d in case["damage"]})))
+        if impl and impl[-1].startswith("E:"):
+            ctx.fail(C.Failure("get_outlines() does not end normally on an outline whose First/Next links are cyclic, "
+                               "shared or dangling (%s)" % impl[-1][2:], case, "a finite list of items", impl[-3:],
+                               {"component": "outline-cycle", "exception": impl[-1][2:]}))
+        return
     if not case.get("no_outlines"):
         root = sx_outline_root(case, it)
         batch.add("outline " + root, "outline", case if n < 200 else {"kind": "outline", "items": n},
@@ -1566,6 +1723,8 @@ def run(ctx: C.Ctx) -> None:
         eval_labels(ctx, batch, gen_labels_case(rng, wild), wild)
         eval_names(ctx, batch, gen_names_case(rng, wild), wild)
         eval_outline(ctx, batch, gen_outline_case(rng, wild), wild)
+        if i % 2 == 1:
+            eval_outline(ctx, batch, gen_outline_case(rng, True, "damaged"), True)
         if i % 200 == 199:
             batch.flush(ctx)
     if ctx.tier == "thorough" and ctx.time_left():
